@@ -79,7 +79,10 @@ TWrite == /\ IsEv("call")
 TrackCountSigs(F) ==
     LET want == IF cfg.ac = "none" THEN 1 ELSE 2 IN
     IF ~Has(F, "tracks") THEN {Sig("C02", "Grammar", "moov", "missing")}
-    ELSE IF Len(F.tracks) # want THEN {Sig("C02", "Grammar", "moov", "track-count")} ELSE {}
+    ELSE IF Len(F.tracks) # want THEN {Sig("C02", "Grammar", "moov", "track-count")}
+    ELSE IF Has(F, "absent") /\ F.absent # << >> THEN {Sig("C02", "Grammar", "moov", "header-box-missing")}       \* the reader filled defaults
+    ELSE IF \E i \in 1..Len(F.tracks) : Has(F.tracks[i], "absent") /\ F.tracks[i].absent # << >>
+         THEN {Sig("C02", "Grammar", "trak", "box-missing")} ELSE {}
 
 FileSigs(F) ==
     LET tc == TrackCountSigs(F) IN
